@@ -160,8 +160,10 @@ impl Scenario for C12 {
         }
         let apairs: Vec<(usize, usize)> = if t { vec![(A, B), (B, C), (A, A)] } else { vec![(A, B)] };
         for (from, spender) in apairs {
-            for amt in [Amt::Five, Amt::One, Amt::Zero, Amt::Neg] {
+            for amt in [Amt::Five, Amt::One, Amt::Zero, Amt::Neg, Amt::Max] {
                 for exp in [0u8, 1, 2, 3, 21] {
+                    // an allowance of exactly i128::MAX is an ordinary allowance
+                    if amt == Amt::Max && exp != 3 { continue; }
                     if !t && (amt == Amt::One || (amt == Amt::Neg && exp != 1)) { continue; }
                     if exp == 21 && amt != Amt::Five { continue; }
                     v.push(Act::Approve { from, spender, amt, exp });
